@@ -421,7 +421,8 @@ def hash_projection():
             return line
         for k in range(5):
             h = toks[len(toks) - 5 + k]
-            toks[len(toks) - 5 + k] = "#%d" % seen[k].setdefault(h, len(seen[k])) if h not in ("crash", "-") else h
+            if h.isdigit():
+                toks[len(toks) - 5 + k] = "#%d" % seen[k].setdefault(int(h), len(seen[k]))     # int keys: the thorough tier sees 3.6 million day hashes
         return " ".join(toks)
     return f
 
